@@ -83,7 +83,11 @@ def run(check: core.Check) -> None:
     # different hash seeds, once in corpus order and once reversed (different histories for every program), all
     # programs of a process sharing one Checker per settings
     items = corpus.harvest()
-    ids = [it["id"] for it in items]
+    ids = [it["id"] for it in items if not it["impure"]]
+    check.assumptions.append(
+        f"corpus programs whose own module-level values are run-dependent (clock, randomness, ids: "
+        f"{sum(1 for it in items if it['impure'])} of {len(items)}) are not compared between processes"
+    )
     rnd.shuffle(ids)
     if quick:
         ids = ids[:240]
